@@ -10,6 +10,7 @@ mod ext_spec;
 mod model;
 mod ops;
 mod ops_io;
+mod ops_schema_ty;
 mod ops_canon;
 mod val;
 
@@ -19,6 +20,7 @@ use std::io::{BufRead, Write};
 fn main() {
     std::panic::set_hook(Box::new(|_| {}));
     let table: HashMap<u32, ops::Entry> = catalogue::catalogue().into_iter().map(|e| (e.id, e)).collect();
+    let stable: HashMap<u32, ops::RunFn> = catalogue::schema_catalogue().into_iter().collect();
     let args: Vec<String> = std::env::args().collect();
     let out = std::io::stdout();
     let mut out = std::io::BufWriter::new(out.lock());
@@ -60,6 +62,21 @@ fn main() {
                 Ok(Some(s)) => s,
                 Ok(None) => "harness-error unknown-op".to_string(),
                 Err(_) => "panic".to_string(),
+            };
+            writeln!(out, "{}\t{}", id, res).unwrap();
+            continue;
+        }
+        if ops_schema_ty::is_schema_op(op) {
+            let res = match tid.parse::<u32>().ok().and_then(|t| stable.get(&t)) {
+                None => "skip no-schema".to_string(),
+                Some(run) => {
+                    let run = *run;
+                    let a: Vec<&str> = f[4..].to_vec();
+                    match std::panic::catch_unwind(move || run(op, &a)) {
+                        Ok(s) => s,
+                        Err(_) => "panic".to_string(),
+                    }
+                }
             };
             writeln!(out, "{}\t{}", id, res).unwrap();
             continue;
